@@ -34,6 +34,41 @@ def strip_generics(path):
     return s
 
 
+KNOWN_MODULES = frozenset([
+    'buffer', 'buffer::real_array', 'buffer::ring_buffer', 'buffer::ring_buffer::if_alloc', 'channel',
+    'channel::channel_future', 'channel::channel_future::if_alloc', 'channel::channel_future::if_alloc::shared',
+    'channel::error', 'channel::mpmc', 'channel::mpmc::if_alloc', 'channel::mpmc::if_alloc::shared',
+    'channel::mpmc::if_alloc::shared::if_std', 'channel::oneshot', 'channel::oneshot::if_alloc',
+    'channel::oneshot::if_alloc::shared', 'channel::oneshot::if_alloc::shared::if_std', 'channel::oneshot_broadcast',
+    'channel::oneshot_broadcast::if_alloc', 'channel::oneshot_broadcast::if_alloc::shared',
+    'channel::oneshot_broadcast::if_alloc::shared::if_std', 'channel::state_broadcast',
+    'channel::state_broadcast::if_alloc', 'channel::state_broadcast::if_alloc::shared',
+    'channel::state_broadcast::if_alloc::shared::if_std', 'intrusive_double_linked_list', 'intrusive_pairing_heap',
+    'noop_lock', 'sync', 'sync::manual_reset_event', 'sync::mutex', 'sync::semaphore', 'sync::semaphore::if_alloc',
+    'timer', 'timer::clock', 'timer::clock::if_std', 'timer::timer', 'utils'])
+
+
+def _unknown_modules(raw):
+    """modules (path prefixes of types, traits and free functions that are not items themselves) which today's
+    module tree does not have and whose parent it has"""
+    items = set(a['path'] for a in raw['adts']) | set(t['path'] for t in raw['traits'])
+    fnpaths = set(f['path'] for f in raw['fns'])
+    mods = set()
+    for p in list(items):
+        segs = p.split('::')
+        for i in range(1, len(segs)):
+            mods.add('::'.join(segs[:i]))
+    for f in raw['fns']:
+        if f['kind'] == 'fn' and not f['path'].startswith('<'):
+            segs = f['path'].split('::')
+            for i in range(1, len(segs)):
+                pre = '::'.join(segs[:i])
+                if pre not in items and pre not in fnpaths:
+                    mods.add(pre)
+    return set(m for m in mods if m not in KNOWN_MODULES and '::' in m and m.rsplit('::', 1)[0] in KNOWN_MODULES
+               and m not in items)
+
+
 class Facts:
     def __init__(self, path):
         with open(path) as f:
@@ -42,6 +77,20 @@ class Facts:
         # one spelling for the rules (crate-local paths never start with these crate names)
         text = re.sub(r'\b(core|alloc)::', 'std::', text)
         self.raw = json.loads(text)
+        # Module nesting is not vocabulary.  The rules name the crate's types by their paths in today's module tree
+        # (KNOWN_MODULES); a private inline module added below a known one (`mod imp { struct MutexState .. }`) is
+        # transparent: its segment is removed from every path, so `sync::mutex::imp::MutexState` is the
+        # `sync::mutex::MutexState` the rules are written against.  Two items that collide after that fail closed.
+        self.transparent_modules = []
+        for _round in range(4):
+            unknown = _unknown_modules(self.raw)
+            if not unknown:
+                break
+            for m in sorted(unknown, key=len, reverse=True):
+                parent = m.rsplit('::', 1)[0]
+                text = text.replace(m + '::', parent + '::')
+                self.transparent_modules.append(m)
+            self.raw = json.loads(text)
         self.path = path
         self.features = self.raw['features']
         self.adts = {a['path']: a for a in self.raw['adts']}
@@ -50,8 +99,10 @@ class Facts:
         self.traits = {t['path']: t for t in self.raw['traits']}
         self.fns = {}
         for fn in self.raw['fns']:
-            # identical def paths cannot occur for distinct bodies
-            assert fn['path'] not in self.fns, fn['path']
+            # identical def paths cannot occur for distinct bodies (unless a transparent module hid a name clash)
+            if fn['path'] in self.fns:
+                raise AnchorMissing('two functions named %s after flattening the private module(s) %s'
+                                    % (fn['path'], self.transparent_modules))
             self.fns[fn['path']] = fn
         self.closures_of = {}
         for fn in self.raw['fns']:
